@@ -455,11 +455,12 @@ func runCase(id int, kind, expr string, rs *resSpec, projTexts []string, extraTa
 	pvS := hx.HexListS(pv)
 	hx.Printf("obs %d new=ok perr=none pv=%s n=%d test=%s oob=%s all=%s any=%s apply=%s flag=%s fapply=%s fflag=%s omiss=0 glue=%s\n",
 		id, pvS, n, test, oob, b01(all), b01(any), idxList(r1.Values), b01(flag1), idxList(r2.Values), b01(flag2), glue)
-	flagS := "n0"
+	// what the property speaks about; for n = 0 All/Any/flag are a boundary (see notes/C06.md)
+	allS, anyS, flagS := "n0", "n0", "n0"
 	if n > 0 {
-		flagS = b01(flag2)
+		allS, anyS, flagS = b01(all), b01(any), b01(flag2)
 	}
-	hx.Printf("sobs %d pv=%s test=%s apply=%s flag=%s\n", id, pvS, test, idxList(r2.Values), flagS)
+	hx.Printf("sobs %d pv=%s test=%s oob=%s all=%s any=%s apply=%s flag=%s\n", id, pvS, test, oob, allS, anyS, idxList(r2.Values), flagS)
 	return true
 }
 
